@@ -241,6 +241,9 @@ struct Outcome {
 }
 
 async fn run_case(w: &World, c: &HttpCase) -> Result<Outcome, String> {
+    // the origin connection of this case is accepted after this point: only later entries are searched
+    // (searching the whole log made a 10 000-request run quadratic)
+    let mark = w.conns.lock().unwrap().len();
     let mut s = TcpStream::connect(&w.http).await.map_err(|e| e.to_string())?;
     let _ = s.set_nodelay(true);
     let mut first: Vec<u8> = c.head.clone();
@@ -290,7 +293,7 @@ async fn run_case(w: &World, c: &HttpCase) -> Result<Outcome, String> {
     loop {
         let found = {
             let conns = w.conns.lock().unwrap();
-            conns.iter().find_map(|(addr, b)| {
+            conns.iter().skip(mark).find_map(|(addr, b)| {
                 let b = b.lock().unwrap();
                 if b.windows(marker.len()).any(|x| x == marker.as_bytes()) { Some((*addr, b.clone())) } else { None }
             })
@@ -302,7 +305,7 @@ async fn run_case(w: &World, c: &HttpCase) -> Result<Outcome, String> {
         if tokio::time::Instant::now() > deadline {
             // maybe the request reached an origin without its tail: look for the token anywhere
             let conns = w.conns.lock().unwrap();
-            out.origin = conns.iter().find_map(|(addr, b)| {
+            out.origin = conns.iter().skip(mark).find_map(|(addr, b)| {
                 let b = b.lock().unwrap();
                 if b.windows(c.token.len()).any(|x| x == c.token.as_bytes()) { Some((*addr, b.clone())) } else { None }
             });
@@ -425,7 +428,7 @@ fn judge(rep: &mut Report, c: &HttpCase, o: &Outcome) {
 }
 
 pub fn run(ctx: Ctx) -> Report {
-    let n = ctx.tier.pick(600, 10_000);
+    let n = ctx.tier.pick(600, 40_000);
     let mut rep = Report::new("C17");
     let seed = ctx.seed;
     // the scheme-default ports are fixed by the protocol; another run of this check may hold them right now
